@@ -436,3 +436,76 @@ Qed.
 Corollary same_stream_same_lines s1 s2 sz1 sz2 :
   concat s1 = concat s2 -> 1 <= sz1 -> 1 <= sz2 -> deliver sz1 s1 = deliver sz2 s2.
 Proof. intros H H1 H2. rewrite !deliver_frame by assumption. rewrite H. reflexivity. Qed.
+
+(* ------------------------------------------------------------------ *)
+(* reads that return an error together with bytes *)
+
+(* the errors play no part in what is framed: forgetting them gives [run] *)
+Lemma runE_erase fuel : forall r s,
+  run fuel r (map fst s) = (map fst (fst (runE fuel r s)), snd (runE fuel r s)).
+Proof.
+  induction fuel as [|f IH]; intros r s; [reflexivity|].
+  destruct s as [|[c e] rest]; [reflexivity|].
+  cbn [map fst run runE].
+  destruct (read_and_send r (firstn (Nat.min (length c) (space (grow r))) c)) as [ls r1].
+  destruct (Nat.min (length c) (space (grow r)) <? length c).
+  - specialize (IH r1 ((skipn (Nat.min (length c) (space (grow r))) c, e) :: rest)).
+    destruct (runE f r1 _) as [os r2]. cbn [map fst snd] in IH |- *.
+    unfold bytes, rerr in *. rewrite IH. reflexivity.
+  - specialize (IH r1 rest). destruct (runE f r1 rest) as [os r2].
+    cbn [map fst snd] in IH |- *. unfold bytes, rerr in *. rewrite IH. reflexivity.
+Qed.
+
+Theorem bytes_with_error_kept stream script sz os r :
+  concat (map fst script) = stream -> 1 <= sz -> run_allE sz script = (os, r) ->
+  emitted (map fst os) ++ finish r = frame stream /\ bad r = false.
+Proof.
+  intros Hcat Hsz H. unfold run_allE in H.
+  pose proof (runE_erase (run_fuel (map fst script)) (new_lr sz) script) as He.
+  assert (He2 : run_all sz (map fst script) = (map fst os, r)).
+  { unfold run_all. etransitivity; [exact He|]. clear He. f_equal.
+    - f_equal. exact (f_equal fst H).
+    - exact (f_equal snd H). }
+  exact (chunking_independent_any_reads _ _ _ _ _ Hcat Hsz He2).
+Qed.
+
+(* every error the reader returned is handed to the caller, once, in order,
+   and none is invented *)
+Lemma runE_errors fuel : forall r s os r',
+  inv r -> run_fuel (map fst s) <= fuel -> runE fuel r s = (os, r') ->
+  filter nonnil (map snd os) = filter nonnil (map snd s).
+Proof.
+  induction fuel as [|f IH]; intros r s os r' Hinv Hf H.
+  - destruct s as [|[c e] rest]; [|cbn [map fst] in Hf; rewrite run_fuel_cons in Hf; lia].
+    cbn [runE] in H. injection H as <- <-. reflexivity.
+  - cbn [runE] in H. destruct s as [|[c e] rest].
+    + injection H as <- <-. reflexivity.
+    + set (sp := space (grow r)) in *. set (n := Nat.min (length c) sp) in *.
+      destruct (read_and_send r (firstn n c)) as [ls r1] eqn:Er.
+      destruct Hinv as (Hwf & Hno & Hcap & Hsz).
+      destruct (grow_cap r Hcap Hsz) as (_ & Hsp). fold sp in Hsp.
+      assert (Hfit : length (firstn n c) <= space (grow r)).
+      { rewrite firstn_length. fold sp. lia. }
+      destruct (read_and_send_refines _ _ _ _ (conj Hwf (conj Hno (conj Hcap Hsz))) Hfit Er)
+        as (_ & Hinv1 & _).
+      cbn [map fst] in Hf. rewrite run_fuel_cons in Hf.
+      destruct (Nat.ltb_spec n (length c)) as [Hlt|Hge].
+      * destruct (runE f r1 ((skipn n c, e) :: rest)) as [os1 r2] eqn:Erun.
+        injection H as <- <-.
+        assert (Hf' : run_fuel (map fst ((skipn n c, e) :: rest)) <= f).
+        { cbn [map fst]. rewrite run_fuel_cons, skipn_length. unfold n in *. lia. }
+        pose proof (IH _ _ _ _ Hinv1 Hf' Erun) as HI.
+        cbn [map snd filter] in *. cbn [nonnil N.eqb negb]. exact HI.
+      * destruct (runE f r1 rest) as [os1 r2] eqn:Erun.
+        injection H as <- <-.
+        assert (Hf' : run_fuel (map fst rest) <= f) by (unfold n in *; lia).
+        pose proof (IH _ _ _ _ Hinv1 Hf' Erun) as HI.
+        cbn [map snd filter]. rewrite HI. reflexivity.
+Qed.
+
+Theorem errors_handed_back sz script os r :
+  1 <= sz -> run_allE sz script = (os, r) ->
+  filter nonnil (map snd os) = filter nonnil (map snd script).
+Proof.
+  intros Hsz H. exact (runE_errors _ _ _ _ _ (inv_new sz Hsz) (le_n _) H).
+Qed.
